@@ -90,7 +90,11 @@ func smallPat(t *rapid.T, depth int) *ref.Pat {
 		case 5:
 			return &ref.Pat{K: "any"}
 		default:
-			return &ref.Pat{K: "br", Neg: true, Items: []*ref.Pat{{K: "lit", R: 'a'}}}
+			items := []*ref.Pat{{K: "lit", R: 'a'}}
+			if rapid.Bool().Draw(t, "nonASCIIItem") {
+				items = append(items, &ref.Pat{K: "lit", R: rapid.SampledFrom([]rune{0xE9, 0x1F60, 0x1F600}).Draw(t, "item")})
+			}
+			return &ref.Pat{K: "br", Neg: rapid.IntRange(0, 3).Draw(t, "negated") != 0, Items: items}
 		}
 	}
 	switch rapid.IntRange(0, 4).Draw(t, "k") {
